@@ -73,12 +73,25 @@ func main() {
 		Must(f.Close())
 	}
 	inFile := 0
+	// corpus of earlier failures, always run first
+	corpus := []*fqlast.Program{
+		{Ret: &fqlast.E{K: "like", A: fqlast.Str(""), B: fqlast.Str("?")}},
+		{For: &fqlast.For{Val: "i", Src: fqlast.Range(fqlast.Int(1), fqlast.Int(2)), Ret: &fqlast.Ret{For: &fqlast.For{Val: "j", Src: fqlast.Range(fqlast.Int(1), fqlast.Int(2)),
+			Ret: &fqlast.Ret{E: fqlast.Arr(fqlast.Var("i"), fqlast.Var("j"))}}}}},
+		{Ret: fqlast.Math("%", fqlast.Int(1), fqlast.Int(0))},
+		{Ret: fqlast.Member(fqlast.Arr(fqlast.Int(1), fqlast.Int(2)), fqlast.Seg{Expr: fqlast.Int(-1)})},
+		{Ret: fqlast.Arr(fqlast.Un("NOT", fqlast.Log("AND", fqlast.Int(1), fqlast.Int(2))), fqlast.Math("+", fqlast.Un("-", fqlast.Int(2)), fqlast.Int(3)))},
+	}
+	n += len(corpus)
 	for i := 0; i < n; i++ {
 		if inFile == 0 {
 			open(len(files))
 		}
 		g := fqlast.NewGen(rng, 1+rng.Intn(depth))
 		p := g.Program()
+		if i < len(corpus) {
+			p = corpus[i]
+		}
 		for k, v := range g.Stats {
 			m.Distribution[k] += v
 		}
